@@ -25,6 +25,8 @@ func propC03(c *Ctx) propInfo {
 	c.floor("E10.cursor-free-encode", 1)
 	c.floor("E2.R-lossyconv", 4)
 	c.cursorPairing() // tlb.Any decodes "the rest of the cell" through CopyRemaining
+	c.valueReceivers("E14.value-receivers", "MarshalTLB", "tlb", "wallet", "abi", "ton", "tep64")
+	c.floor("E14.value-receivers", 40)
 	return propInfo{
 		explanation: "Static structural clauses of C03 (DESIGN.md §4 C03): tag hygiene over every struct type of the TL-B universe (tags parse under the codec's grammar, sum types fully tagged and prefix-free in first-match order, field kinds supported in both directions, no unexported field in a reflectively coded struct, custom codecs two-sided), hand-written Marshal/Unmarshal pairs emit and consume the same event sequences, generated integer family widths agree on both sides, no read result or error is dropped in codecs. Decides these necessary conditions, not value equality after a round trip.",
 	}
